@@ -318,6 +318,7 @@ for sc in d['scenarios']:
     bad = []
     if sc.get('max_steps') is None and abs(s.t - sc['tf']) > tol: bad.append('final t %r != tf' % s.t)
     if any(h <= 0 for t, h in steps): bad.append('non-positive step')
+    if sc.get('max_steps') is not None and len(steps) > sc['max_steps']: bad.append('%d steps taken with max_steps=%d' % (len(steps), sc['max_steps']))
     if any(t + h > sc['tf'] + tol for t, h in steps): bad.append('step past tf')
     if calls != ['pre', 'step', 'post'] * len(steps): bad.append('callback order/count')
     if not dumps or abs(dumps[0][0]) > tol or abs(dumps[-1][0] - s.t) > tol: bad.append('no output at start/end')
@@ -354,6 +355,8 @@ SCENARIOS = dict(
     first_step=dict(dt=0.1, tf=1.0, pfreq=100, times=[0.05]),
     duplicate=dict(dt=0.1, tf=1.0, pfreq=100, times=[0.8, 0.8, 0.85]),
     at_tf=dict(dt=0.3, tf=1.0, pfreq=2, times=[0.9, 1.0]),
+    capped=dict(dt=0.1, tf=1.0, pfreq=100, times=[], max_steps=3),
+    capped0=dict(dt=0.1, tf=1.0, pfreq=100, times=[], max_steps=0),
 )
 
 
@@ -373,7 +376,8 @@ def replay(names):
     return rp
 
 
-GENERIC = ('basic', 'noncomm', 'damp', 'adaptive', 'window3', 'at_tf')
+GENERIC = ('basic', 'noncomm', 'damp', 'adaptive', 'window3', 'at_tf',
+           'capped', 'capped0')
 
 
 # --------------------------------------------------------------------- tasks
@@ -702,7 +706,10 @@ def task_solve(ctx, repo, m, W):
         s_ = st.env['self'].attrs
         t, tf, eps, dt = s_['t'], s_['tf'], s_['_epsilon'], s_['dt']
         return z3.And(S.to_real(t) <= tf, eps > 0, S.to_z3(S.cmp(
-            '>=', s_['count'], 0)), z3.Implies(tf - S.to_real(t) > eps,
+            '>=', s_['count'], 0)),
+            # never more than max_steps iterations
+            S.to_z3(S.cmp('<=', s_['count'], s_['max_steps'])),
+            z3.Implies(tf - S.to_real(t) > eps,
                                                z3.And(S.to_real(dt) > 0,
                                                       S.to_real(t) +
                                                       S.to_real(dt) <= tf)))
@@ -754,6 +761,9 @@ def task_solve(ctx, repo, m, W):
             S.to_z3(S.cmp('>=', f['count'], f['max_steps']))), W))
         obs.append(Obligation('exit.%d.bounds' % i, out.pc,
                               S.to_real(f['t']) <= f['tf'], W))
+        obs.append(Obligation('exit.%d.at_most_max_steps' % i, out.pc,
+                              S.to_z3(S.cmp('<=', f['count'],
+                                            f['max_steps'])), W))
         obs.append(Obligation('exit.%d.output' % i, out.pc, z3.BoolVal(
             bool(tr and tr[0] == 'dump' and tr[-1] == 'dump')), W))
     for o_ in obs:
